@@ -88,6 +88,7 @@ func Exec(parseTree any, assemblyDst string) (*pass1.Pass1, *pass2.Pass2) {
 		// ただし、pass2.Eval が []byte を返さなくなったため、CodeGenContext から取得
 		_, err = dstFile.Write(ctx.MachineCode) // ctx.MachineCode を使用
 		if err != nil {
+			_ = dstFile.Truncate(0) // 書き込みに失敗した場合、途中まで書かれたイメージを残さない
 			fmt.Printf("GOSK : can't write raw binary %s", assemblyDst)
 			os.Exit(-1)
 		}
@@ -98,6 +99,7 @@ func Exec(parseTree any, assemblyDst string) (*pass1.Pass1, *pass2.Pass2) {
 	// 選択されたフォーマットでファイルに書き出す
 	err = format.Write(ctx, assemblyDst) // CodeGenContext を渡す
 	if err != nil {
+		_ = dstFile.Truncate(0) // 書き込みに失敗した場合、途中まで書かれたイメージを残さない
 		fmt.Printf("GOSK : failed to write %s format file: %s", pass2.OutputFormat, err)
 		os.Exit(-1)
 	}
